@@ -93,12 +93,14 @@ class HtmlHarness:
 
     def body(self, v):
         cells = [v[f"c{i}"] for i in range(len(self.holes))]
-        for c in cells:
-            if not in_domain(c):
-                return SKIP
         if self.p.get("alphabet"):
             for c in cells:
                 if not docs.in_alphabet(c, self.p["alphabet"]):
+                    return SKIP
+            cells = [env.realize(c) for c in cells]
+        else:
+            for c in cells:
+                if not in_domain(c):
                     return SKIP
         for i, k in enumerate(self.p.get("classes") or []):
             if not docs.in_class(cells[i], k):
